@@ -77,4 +77,95 @@ V_ENSURES(!__CPROVER_return_value || !(g_k2 < V_OLD(zck->header_size)) || zck->h
 V_ENSURES(!__CPROVER_return_value || g_fpos[G_IX(zck->fd)] == V_OLD(g_fpos[G_IX(zck->fd)]) + (g_off_t)(zck->header_size - V_OLD(zck->header_size))) /*@C13,C06.read_header_from_file.consumed_exactly_the_rest*/
 V_ENSURES(!__CPROVER_return_value || zck->fd != g_watch_fd || !(g_watch_off >= V_OLD(g_fpos[G_IX(zck->fd)]) && g_watch_off - V_OLD(g_fpos[G_IX(zck->fd)]) < (g_off_t)(zck->header_size - V_OLD(zck->header_size))) || (g_watch_seen == 1 && (unsigned char)zck->header[V_OLD(zck->header_size) + (g_watch_off - V_OLD(g_fpos[G_IX(zck->fd)]))] == g_watch_val)) /*@C13,C06.read_header_from_file.buffer_holds_the_file_bytes*/
 ;
+
+/* ---- state predicates of the header parsing pipeline (each is the postcondition of the stage
+ * before it and the precondition of the stage after it) ------------------------------------ */
+/* after read_header_from_file: the buffer holds lead ‖ header, exactly header_size bytes */
+#define HDR_LOADED(z) ((z)->header != NULL && (z)->header_size == (z)->lead_size + (z)->header_length && \
+    (z)->header_size >= (z)->lead_size && __CPROVER_rw_ok((z)->header, (z)->header_size) && \
+    SPEC_HASH_VALID((z)->hash_type.type) && (z)->hash_type.digest_size == SPEC_DIGEST_SIZE((z)->hash_type.type))
+/* after read_preface */
+#define PREFACE_DONE(z) ((z)->preface_string == (z)->header + (z)->lead_size && (z)->preface_size <= (z)->header_length && \
+    (z)->index_size <= (size_t)INT_MAX)
+/* after read_index */
+#define INDEX_DONE(z) ((z)->index_string == (z)->header + ((z)->lead_size + (z)->preface_size) && \
+    (z)->preface_size + (z)->index_size >= (z)->index_size && (z)->preface_size + (z)->index_size <= (z)->header_length)
+
+/* Spec decode of the preface (zchunk_format.txt): data checksum[ds] ‖ compint flags ‖ compint
+ * compression type ‖ [optional elements, flag 2] ‖ compint index size.  Evaluated ONCE per
+ * clause (nested evaluation of the spec functions is what makes CBMC slow). */
+#define PF_P(z)  ((z)->header + (z)->lead_size)
+#define PF_DS(z) ((size_t)(z)->hash_type.digest_size)
+static inline bool post_read_preface(const zckCtx *zck) {
+    const char *p = zck->header + zck->lead_size;
+    size_t hl = zck->header_length, ds = (size_t)zck->hash_type.digest_size;
+    if(ds > hl) return false;
+    size_t o = ds;
+    size_t n1 = spec_ci_len(p + o, hl - o);
+    if(n1 < 1 || !spec_ci_fits64(p + o, n1)) return false;
+    size_t flags = (size_t)spec_ci_val(p + o, n1);
+    o += n1;
+    if((flags & ~(size_t)6) != 0) return false;                          /* only flags 2 and 4 are known */
+    if(zck->has_streams != 0) return false;
+    if((zck->has_optional_elems != 0) != ((flags & 2) != 0)) return false;
+    if((zck->has_uncompressed_source != 0) != ((flags & 4) != 0)) return false;
+    size_t n2 = spec_ci_len(p + o, hl - o);
+    if(n2 < 1) return false;
+    v_u128 ctype = spec_ci_val(p + o, n2);
+    o += n2;
+    if(!(ctype == ZCK_COMP_NONE || ctype == ZCK_COMP_ZSTD) || (v_u128)zck->comp.type != ctype) return false;
+    if(zck->has_optional_elems != 0) return true;                       /* optional elements: only the bound below */
+    size_t n3 = spec_ci_len(p + o, hl - o);
+    if(n3 < 1) return false;
+    v_u128 isize = spec_ci_val(p + o, n3);
+    o += n3;
+    return isize <= (v_u128)INT_MAX && (v_u128)zck->index_size == isize && zck->preface_size == o;
+}
+
+static bool read_preface(zckCtx *zck)
+V_REQUIRES(__CPROVER_rw_ok(zck, sizeof(*zck)))
+V_REQUIRES(HDR_LOADED(zck))
+V_REQUIRES(zck->full_hash_digest == NULL)
+V_ASSIGNS(zck->full_hash_digest, zck->has_streams, zck->has_optional_elems, zck->has_uncompressed_source, zck->comp, zck->manual_chunk, zck->chunk_min_size, zck->chunk_max_size, zck->buzhash_width, zck->buzhash_match_bits, zck->buzhash_bitmask, zck->chunk_auto_min, zck->chunk_auto_max, zck->index_size, zck->preface_string, zck->preface_size, zck->error_state)
+V_ENSURES(!__CPROVER_return_value || (PF_DS(zck) <= zck->header_length && zck->full_hash_digest != NULL && __CPROVER_r_ok(zck->full_hash_digest, PF_DS(zck)) && (!(g_k1 < PF_DS(zck)) || zck->full_hash_digest[g_k1] == PF_P(zck)[g_k1]))) /*@C13.read_preface.data_checksum_is_the_stored_one*/
+V_ENSURES(!__CPROVER_return_value || post_read_preface(zck)) /*@C13.read_preface.flags_comp_type_index_size_preface_size_are_the_stored_ones*/
+V_ENSURES(!__CPROVER_return_value || PREFACE_DONE(zck)) /*@C03,C13.read_preface.cursor_stays_inside_header*/
+V_ENSURES(!__CPROVER_return_value || zck->comp.started != 0) /*@C03.read_preface.decoder_started*/
+;
+
+/* index_read (src/lib/index/index_read.c) as its caller sees it.  data[0..max_length) must be
+ * readable: this requires-clause at read_index's call site is the C03 obligation. */
+bool index_read(zckCtx *zck, char *data, size_t size, size_t max_length)
+V_REQUIRES(__CPROVER_rw_ok(zck, sizeof(*zck)))
+V_REQUIRES(size <= max_length && __CPROVER_r_ok(data, max_length))
+V_ASSIGNS(zck->index, zck->chunk_hash_type, zck->index_string, zck->error_state)
+V_FREES(zck->index_string)
+V_ENSURES(!__CPROVER_return_value || (zck->index.first != NULL && zck->index.count >= 1)) /*@C03,C13.index_read.at_least_the_dictionary_entry*/
+V_ENSURES(!__CPROVER_return_value || zck->index_string == NULL) /*@C03.index_read.index_string_cleared*/
+;
+
+static bool read_index(zckCtx *zck)
+V_REQUIRES(__CPROVER_rw_ok(zck, sizeof(*zck)))
+V_REQUIRES(HDR_LOADED(zck) && PREFACE_DONE(zck))
+V_REQUIRES(zck->index_string == NULL)
+V_ASSIGNS(zck->index, zck->chunk_hash_type, zck->index_string, zck->error_state)
+V_ENSURES(!__CPROVER_return_value || INDEX_DONE(zck)) /*@C03,C13.read_index.index_lies_inside_header*/
+V_ENSURES(!__CPROVER_return_value || (zck->index.first != NULL && zck->index.count >= 1)) /*@C03,C13.read_index.at_least_the_dictionary_entry*/
+;
+
+/* signature block: compint(signature count) must decode to 0 (signatures are unsupported) */
+static inline bool post_read_sig(const zckCtx *zck) {
+    const char *p = zck->header + (zck->lead_size + zck->preface_size + zck->index_size);
+    size_t n = spec_ci_len(p, zck->header_length - zck->preface_size - zck->index_size);
+    return n >= 1 && spec_ci_val(p, n) == 0 && zck->sigs.count == 0 && zck->sig_size == n && zck->sig_string == p;
+}
+static bool read_sig(zckCtx *zck)
+V_REQUIRES(__CPROVER_rw_ok(zck, sizeof(*zck)))
+V_REQUIRES(HDR_LOADED(zck) && PREFACE_DONE(zck) && INDEX_DONE(zck))
+V_ASSIGNS(zck->sigs.count, zck->data_offset, zck->sig_size, zck->sig_string, zck->error_state)
+#define SIG_P(z) ((z)->header + ((z)->lead_size + (z)->preface_size + (z)->index_size))
+#define SIG_AV(z) ((z)->header_length - (z)->preface_size - (z)->index_size)
+V_ENSURES(!__CPROVER_return_value || post_read_sig(zck)) /*@C13,C03.read_sig.no_signatures_and_inside_header*/
+V_ENSURES(!__CPROVER_return_value || zck->data_offset == zck->lead_size + zck->header_length) /*@C13.read_sig.data_offset_is_header_end*/
+;
 #endif
